@@ -37,6 +37,10 @@ def access_cases(ctx, n_files, max_adds, max_slices):
                                   nsessions=rng.choice([2, 2, 3]), p_trig=0.3)
         else:
             fc = ioc.gen_filecase(rng, rng.randrange(1, max_adds + 1), opts=_mk_opts(rng, i), p_bad=0.2)
+        if i % 2 == 0:
+            # a mode='a' post-processing pass adds an analysis dataset with rows for an arbitrary subset
+            # of the events (blocks in arbitrary order); every access path must return each event's own rows
+            fc["analysis"] = {"seed": rng.randrange(1 << 30), "p": rng.choice([0.3, 0.5, 0.7])}
         cases.append({"files": [fc], "queries": [], "_max_slices": max_slices})
     return cases
 
